@@ -204,8 +204,12 @@ func execRun(rec *proto.RunRec, free bool) runOutcome {
 				nops = op.ID + 1
 			}
 			if op.Share >= 0 && !op.NilList {
-				if _, ok := shared[op.Share]; !ok {
+				if a, ok := shared[op.Share]; !ok {
 					shared[op.Share] = mkArg(op.List, op.Spare)
+				} else if !equalStrs(a.arg, op.List) {
+					// two different lists in one share group would hand one call the other's
+					// contents: a malformed record, never an observation about the library
+					die("malformed run record: share group %d has two different lists", op.Share)
 				}
 			}
 		}
@@ -491,4 +495,16 @@ func aliases(r result, a *argSlice) bool {
 	r0, r1 := uintptr(unsafe.Pointer(&rs[0])), uintptr(unsafe.Pointer(&rs[len(rs)-1]))
 	a0, a1 := uintptr(unsafe.Pointer(&as[0])), uintptr(unsafe.Pointer(&as[len(as)-1]))
 	return r0 <= a1 && a0 <= r1
+}
+
+func equalStrs(a, b []string) bool {
+	if len(a) != len(b) {
+		return false
+	}
+	for i := range a {
+		if a[i] != b[i] {
+			return false
+		}
+	}
+	return true
 }
